@@ -330,3 +330,5 @@ QUOTA_WAIVERS = {
     "monitor-unavailable:fix.get_edge_bias": {"waive": ["fix.get_edge_bias|held"], "require": {"fix.do_fix|held": 150}},
 }
 QUOTAS = {"quick": _Q, "thorough": {k: v * (8 if "cli" not in k else 6) for k, v in _Q.items()}}
+
+INTERNAL_MONITORS = {"fix.match_ref_to_sample": [], "fix.center_by_window": [], "fix.get_edge_bias": []}
